@@ -74,6 +74,31 @@ func (p *Prog) leaderRoles() *leaderRoles {
 			lr.guardFns[f] = true
 		}
 	}
+	// wrappers: a function that returns what a guard function returned (and does something else on the way, such as
+	// counting the refusal) is a guard function too
+	for changed := true; changed; {
+		changed = false
+		for _, f := range p.AllFuncs {
+			if lr.guardFns[f] || f.Blocks == nil || !strings.Contains(funcName(f), "pkg/server") || f.Signature.Results().Len() != 1 || errorResultIndex(f.Signature) != 0 {
+				continue
+			}
+			okAll, n := true, 0
+			for _, b := range f.Blocks {
+				ret, ok := b.Instrs[len(b.Instrs)-1].(*ssa.Return)
+				if !ok {
+					continue
+				}
+				n++
+				c, isCall := resolve(ret.Results[0]).(*ssa.Call)
+				if !isCall || c.Common().StaticCallee() == nil || !lr.guardFns[c.Common().StaticCallee()] {
+					okAll = false
+				}
+			}
+			if okAll && n > 0 {
+				lr.guardFns[f], changed = true, true
+			}
+		}
+	}
 	return lr
 }
 
